@@ -66,6 +66,8 @@ def make_plan(seed: int, tier: str) -> dict:
             cfg["annealing"] = ann
         else:
             cfg["annealing"] = {"do_annealing": False}
+        if st.bernoulli(0.25):
+            cfg["second_run"] = True
         return {"seed": seed, "tier": tier, "engine": "fitsim_c19", "type": "temperature", "world": cfg}
     cfg = stepsim.gen_world_cfg(rng.stream("world"), kinds=["logistic_diag", "logistic_uni", "linear_diag", "joint_uni", "shared_speed", "logistic_scalar"],
                                 ahl_choices=(1, 2, 3, 4, 5, 6))
@@ -126,7 +128,8 @@ class TemperatureMonitor(fitsim.Monitor):
         on = self._expected_on()
         exp = self.cfg["annealing"]["initial_temperature"] if on else 1.0
         if float(t) != float(exp):
-            violation(self.out, "temperature_start", f"start_not_initial:{'annealing' if on else 'no_annealing'}", f"T0={t!r} expected {exp!r}")
+            violation(self.out, "temperature_start", f"start_not_initial:{'annealing' if on else 'no_annealing'}{':' + self.tag if getattr(self, 'tag', '') else ''}",
+                      f"T0={t!r} expected {exp!r}")
         self._common(w, 0)
 
     def _common(self, w, k):
@@ -261,6 +264,21 @@ def run_temperature(plan, out, log):
         if not ok_cfg:
             C["probe.undocumented_configuration_accepted"] += 1
         mon.finish(done)
+        if cfg.get("second_run") and not out["violations"]:
+            # the same algorithm object run once more (on a fresh model): the schedule starts over
+            mon2 = TemperatureMonitor(out, cfg)
+            mon2.tag = "second_run_of_the_same_algorithm_object"
+            world.monitors = [mon2]
+            exc2 = world.run(rerun=True)
+            C["probe.algorithm_object_run_twice"] += 1
+            done2 = len([1 for k, _ in mon2.trace if k >= 1])
+            if exc2 is None:
+                if done2 != cfg["n_iter"]:
+                    violation(out, "completes", "iterations_missing:second_run", f"{done2} != {cfg['n_iter']}")
+                mon2.finish(done2)
+            elif not isinstance(exc2, LeaspyConvergenceError):
+                violation(out, "completes", f"second_run_raised:{type(exc2).__name__}", f"{desc}: {type(exc2).__name__}: {exc2}")
+            log.add("T2", [round(float(t), 12) if isinstance(t, (int, float)) else str(t) for _, t in mon2.trace])
     log.add("T", [round(float(t), 12) if isinstance(t, (int, float)) else str(t) for _, t in mon.trace])
     key = (cfg["n_iter"], sorted((k, str(v)) for k, v in ann.items()))
     out["keys"].add("run:" + hashlib.sha1(repr(key).encode()).hexdigest()[:16])
